@@ -50,6 +50,7 @@ let rec parse_ops (toks : string list) : op list =
        | 'T', [h] -> OStop (nat_ h) :: parse_ops rest
        | 'C', [h] -> OClose (nat_ h) :: parse_ops rest
        | 'O', _ -> OObs :: parse_ops rest
+       | 'W', _ -> OWalk :: parse_ops rest
        | 'K', _ -> let (qs, r) = take_q rest in ORelease (res_fun qs) :: parse_ops r
        | 'Z', _ -> let (qs, r) = take_q rest in ODrain (res_fun qs) :: parse_ops r
        | 'A', [d] -> OAdvance (z_of_string d) :: parse_ops rest
@@ -78,6 +79,7 @@ let fspoll_case (fx : bool) (line : string) : string =
          | EStat p -> Buffer.add_string buf (Printf.sprintf "s%d" (int_of_nat p))
          | EIter -> Buffer.add_char buf 'g'
          | EUser id -> Buffer.add_string buf (Printf.sprintf "u%d" (int_of_nat id))
+         | EWalk l -> Buffer.add_string buf ("v" ^ String.concat "," (List.map (fun h -> string_of_int (int_of_nat h)) l))
          | EObs l ->
              Buffer.add_char buf 'o';
              List.iter (fun ((a, c), p) ->
